@@ -604,7 +604,8 @@ def _lookup_bound_in_try(f: Func, name: str, line: int) -> bool:
         return False
     for t in own_nodes(f.node):
         if isinstance(t, ast.Try) and any(binds[0] is x for b in t.body for x in ast.walk(b)):
-            return any(getattr(h, "lineno", 0) <= line <= getattr(h, "end_lineno", 0) for h in t.handlers)
+            # (by containment, not by line range: statements inlined from a helper keep the helper's line numbers)
+            return any(isinstance(x, ast.Name) and x.id == name and isinstance(x.ctx, ast.Load) and getattr(x, "lineno", -1) == line for h in t.handlers for b in h.body for x in ast.walk(b))
     return False
 
 
